@@ -722,6 +722,7 @@ void reuse_case(vh::rng& r, unodb::key_encoder& reused, unodb::key_encoder& grow
   if (!has_text) {
     unodb::key_decoder d{fresh.get_key_view()};
     std::size_t expect = 0;
+    bool bad = false;
     for (const auto& c : seq) {
       bool ok = true;
       switch (c.t) {
@@ -737,10 +738,10 @@ void reuse_case(vh::rng& r, unodb::key_encoder& reused, unodb::key_encoder& grow
         case F64: { double v; d.decode(v); const double w = from_bits<double>(c.bits); ok = to_bits(v) == to_bits(std::isnan(w) ? std::numeric_limits<double>::quiet_NaN() : w); expect += 8; break; }
         default: break;
       }
-      if (!ok) {
+      if (!ok && !bad) {
+        bad = true;
         rep().violation("C12", "codec/roundtrip/sequence", "component of a multi-component key does not decode to its value",
                         json::object().set("components", tuple_json(seq)));
-        break;
       }
     }
     if (expect != a.size())
